@@ -235,6 +235,22 @@ PROPS = {
         note="whether a container skipped on its first visit still receives its second call is left open by the statement and not compared",
         assumptions=COMMON_ASSUMPTIONS,
     ),
+    "C05": dict(
+        level="model_checking",
+        runs=[dict(harness="c05", variant="san", shards=16)],
+        deadline=dict(quick=400, thorough=3000),
+        rule="BFS over histories on a pool of 3 handle slots: constructors (object/array/int), get, put, object_add (new key, replace, NULL value, self-add), object_del, array_add, "
+             "array_put_idx {0,1,3}, array_insert_idx {0,1}, array_del_idx, set_userdata / set_serializer (replacing the callback), deep_copy (tracked shallow copy), json_pointer_set "
+             "('', /a, /0, /a/b, /-), json_patch_apply (6 patches: remove, move, add, test+remove); operations enabled only when they follow the ownership rules (the pool gives away a "
+             "reference it owns, no cycle); states merged on the canonical reference-count graph; at every state all references are drained in every slot order; non-trivial = distinct state",
+        bound=dict(quick="history depth 5", thorough="history depth 7"),
+        states_stat="states", transitions_stat="transitions",
+        technique="explicit-state BFS of API call histories on the real reference-counted tree (ASan build), reference-count graph model predicting the exact destruction set of every call",
+        claim="for every transition the return code and the exact set of destruction callbacks equal the ownership model (nothing early, late or twice), every node the pool still owns dumps "
+              "to the model's value, json_object_put reports 'freed' exactly then, and draining all references in any order leaves no allocation",
+        note="node destruction observed through json_object_set_userdata delete callbacks (one token per node, re-issued by set_userdata); ASan makes a dangling reference fault",
+        assumptions=COMMON_ASSUMPTIONS,
+    ),
 }
 
 NOT_APPLICABLE = {}
